@@ -14,7 +14,17 @@ Inductive attempt :=
 | AOk (resumed : bool).    (* session established: resumed or freshly bound *)
 
 (* fate of an established session *)
-Inductive term := TDrop | TClose | TStop.   (* abrupt loss; </stream:stream> by the server; StreamManager.Stop *)
+Inductive term :=
+| TDrop          (* abrupt loss: the receiver's read fails, Disconnected event *)
+| TClose         (* </stream:stream> by the server: Disconnected event *)
+| TStreamError   (* <stream:error/> by the server (any condition but conflict), then the stream and the
+                    connection are closed: StreamError event; the manager disconnects and reconnects from
+                    inside the handler, i.e. inside the receiver of the connection that is over *)
+| TStop.         (* StreamManager.Stop *)
+
+(* the terminations of an established connection the manager answers with a reconnection *)
+Definition is_loss (t : term) : bool :=
+  match t with TDrop | TClose | TStreamError => true | TStop => false end.
 
 Inductive mev := EAttempt (a : attempt) | ETerm (t : term).
 
@@ -52,8 +62,10 @@ Definition m_step (s : mst) (e : mev) : mst :=
   (* Run -> connect(): any failure of the first connection makes Run return the error *)
   | MIdle, EAttempt (AOk r) => up s r
   | MIdle, EAttempt _ => phase s MReturned
-  (* established: a loss (Disconnected event) enters resume(); Stop makes Run return *)
-  | MUp, ETerm TDrop | MUp, ETerm TClose => phase s MRetry
+  (* established: a loss (Disconnected event, or StreamError event) enters resume() -- once: the
+     receiver that reported a stream error ends when the handler has replaced its connection, it neither
+     closes the transport again nor reads on (both would hit the NEW session); Stop makes Run return *)
+  | MUp, ETerm TDrop | MUp, ETerm TClose | MUp, ETerm TStreamError => phase s MRetry
   | MUp, ETerm TStop => phase s MReturned
   (* resume(): loop until success or a permanent error *)
   | MRetry, EAttempt (AOk r) => up s r
